@@ -429,7 +429,7 @@ func pricesAfter(gasPrices []gasPrice, c *ctxStep) []gasPrice {
 		}
 		for _, kvp := range strings.Split(c.op[1], ",") {
 			kv := strings.SplitN(kvp, ":", 2)
-			gasPrices = append(gasPrices, gasPrice{kv[0], dec18(kv[1])})
+			gasPrices = append(gasPrices, gasPrice{strings.TrimPrefix(kv[0], "="), dec18(kv[1])})
 		}
 	}
 	return gasPrices
